@@ -166,7 +166,9 @@ func (s *Swarm) findPeer(name mesh.PeerName) *Peer {
 func (s *Swarm) onPeerOnline(peer *Peer) {
 	logging.LogTarget("swarm", "peer created", peer.name)
 	s.state.SubscriptionsOf(peer.name, func(ev *event.Subscription) {
-		s.OnSubscribe(peer, ev)
+		if peer.onSubscribe(ev.Key(), ev.Ssid) {
+			s.OnSubscribe(peer, ev)
+		}
 	})
 }
 
@@ -286,27 +288,46 @@ func (s *Swarm) merge(buf []byte) (mesh.GossipData, error) {
 		return nil, err
 	}
 
+	// Remember which of the received subscriptions are active for us before merging
+	active := make(map[string]bool)
+	other.Subscriptions(func(ev *event.Subscription, _ event.Value) {
+		active[ev.Key()] = s.state.Has(ev)
+	})
+
 	// Merge and get the delta
 	var delta mesh.GossipData
 	if s.state.Merge(other) != nil {
 		delta = &payload{state: other}
 	}
-	other.Subscriptions(func(ev *event.Subscription, v event.Value) {
+
+	// Go through the subscriptions which have changed and notify when a subscription became
+	// active or stopped being active in the merged state.
+	fresh := make(map[mesh.PeerName]bool)
+	other.Subscriptions(func(ev *event.Subscription, _ event.Value) {
 		if ev.Peer == uint64(s.router.Ourself.Name) {
 			return // Skip ourselves
 		}
 
-		// Find the active peer for this subscription event
-		key := ev.Key()
-		peer := s.findPeer(mesh.PeerName(ev.Peer))
+		// Find the active peer for this subscription event. The subscriptions of a peer we
+		// just created were counted from the merged state already.
+		key, name := ev.Key(), mesh.PeerName(ev.Peer)
+		peer, added := s.members.GetOrAdd(name)
+		if added {
+			s.onPeerOnline(peer)
+			fresh[name] = true
+		}
+		if fresh[name] {
+			return
+		}
 
 		// If the subscription is added, notify (TODO: use channels)
-		if v.IsAdded() && peer.onSubscribe(key, ev.Ssid) && peer.IsActive() {
+		was, now := active[key], s.state.Has(ev)
+		if !was && now && peer.onSubscribe(key, ev.Ssid) && peer.IsActive() {
 			s.OnSubscribe(peer, ev)
 		}
 
 		// If the subscription is removed, notify (TODO: use channels)
-		if v.IsRemoved() && peer.onUnsubscribe(key, ev.Ssid) && peer.IsActive() {
+		if was && !now && peer.onUnsubscribe(key, ev.Ssid) && peer.IsActive() {
 			s.OnUnsubscribe(peer, ev)
 		}
 	})
